@@ -865,7 +865,7 @@ def check_C33(rep):
         stim = [([x & 0xFF for x in st["in"]["w"]], int(st["in"]["idle"])) for _, st in bh[1:]]
         add(lim, "ctc", b10.run(stim), {"dut": "CTCSkipInserter(SKIP_BYTE_LIMIT=10)", "origin": "tlc-simulate"})
     # code -> spec: random link schedules, scaled limits and the real 354
-    for limit, count, n in ([(12, 4, 300), (354, 6, 1500)] if quick else [(12, 30, 400), (22, 30, 600), (354, 40, 3000)]):
+    for limit, count, n in ([(12, 4, 300), (354, 5, 1200)] if quick else [(12, 30, 400), (22, 30, 600), (354, 40, 3000)]):
         bench = ctctx_bench(limit)
         for _ in range(count):
             add(limit, "ctc", bench.run(link_schedule(rng, n, limit)),
@@ -881,7 +881,7 @@ def check_C33(rep):
             {"dut": "USB3PhysicalLayer.sink -> phy.tx_data", "origin": origin, "scrambling": True})
     for k in range(3 if quick else 20):
         en = 0 if k == 1 else 1
-        sched = link_schedule(rng, 1200 if quick else 3000, SKIP_LIMIT, style=["tight", "mixed", "long"][k % 3])
+        sched = link_schedule(rng, 800 if quick else 3000, SKIP_LIMIT, style=["tight", "mixed", "long"][k % 3])
         add(SKIP_LIMIT, "phy", pb.run([(w, idle, en) for w, idle in sched]),
             {"dut": "USB3PhysicalLayer.sink -> phy.tx_data", "origin": "random", "scrambling": bool(en)})
 
